@@ -97,6 +97,30 @@ func (w *World) cmpUnb(name string, got []types.UnbondingDelegation, want []refU
 	}
 }
 
+
+// emitQuery records the answer of a query of the real application for comparison with the model's
+// answer on the same state (trace tag Q: kind, arguments, ";", flattened answer).
+func (w *World) emitQuery(kind int, args []int64, answer []string) {
+	var b strings.Builder
+	fmt.Fprintf(&b, "Q %d", kind)
+	for _, a := range args {
+		fmt.Fprintf(&b, " %d", a)
+	}
+	b.WriteString(" ;")
+	for _, a := range answer {
+		b.WriteString(" " + a)
+	}
+	w.emit("%s", b.String())
+}
+
+func (w *World) flatUnb(us []types.UnbondingDelegation) []string {
+	var out []string
+	for _, u := range us {
+		out = append(out, fmt.Sprint(w.idOfValBech(u.ValidatorAddress)), timeStr(u.CompletionTime), intStr(u.Amount), fmt.Sprint(denomID(u.Denom)))
+	}
+	return out
+}
+
 func (w *World) checkQueries() {
 	ref := w.refUnbondings()
 	assets := w.assetIDs()
@@ -120,6 +144,7 @@ func (w *World) checkQueries() {
 				}
 			}
 			w.cmpUnb("unbondings-by-delegator", res.Unbondings, want)
+			w.emitQuery(3, []int64{u}, w.flatUnb(res.Unbondings))
 		} else {
 			w.monitor("C20", "unbondings-by-delegator-error-"+errKind(err.Error()))
 		}
@@ -132,6 +157,7 @@ func (w *World) checkQueries() {
 			}
 			if res, err := w.Query.AllianceUnbondingsByDenomAndDelegator(w.Ctx, &types.QueryAllianceUnbondingsByDenomAndDelegatorRequest{Denom: denomName(d), DelegatorAddr: del}); err == nil {
 				w.cmpUnb("unbondings-by-denom", res.Unbondings, refD)
+				w.emitQuery(2, []int64{d, u}, w.flatUnb(res.Unbondings))
 			} else {
 				w.monitor("C20", "unbondings-by-denom-error-"+errKind(err.Error()))
 			}
@@ -145,6 +171,7 @@ func (w *World) checkQueries() {
 				}
 				if res, err := w.Query.AllianceUnbondings(w.Ctx, &types.QueryAllianceUnbondingsRequest{Denom: denomName(d), DelegatorAddr: del, ValidatorAddr: w.ValAddr(v).String()}); err == nil {
 					w.cmpUnb("unbondings", res.Unbondings, refV)
+					w.emitQuery(1, []int64{d, u, v}, w.flatUnb(res.Unbondings))
 				} else {
 					w.monitor("C20", "unbondings-error-"+errKind(err.Error()))
 				}
@@ -196,9 +223,13 @@ func (w *World) checkRedelegationQueries(u, d int64) {
 		return
 	}
 	var got []string
+	var flat []string
 	for _, e := range res.Redelegations {
 		got = append(got, redelEntryKey(w, e))
+		flat = append(flat, fmt.Sprint(w.idOfAccBech(e.DelegatorAddress)), fmt.Sprint(w.idOfValBech(e.SrcValidatorAddress)),
+			fmt.Sprint(w.idOfValBech(e.DstValidatorAddress)), fmt.Sprint(denomID(e.Balance.Denom)), intStr(e.Balance.Amount), timeStr(e.CompletionTime))
 	}
+	w.emitQuery(4, []int64{u, d}, flat)
 	if strings.Join(got, ",") != strings.Join(want, ",") {
 		w.monitor("C20", "redelegations-differ-from-records")
 	}
@@ -229,6 +260,7 @@ func (w *World) checkDelegationQueries() {
 	plugin := bindings.NewAllianceQueryPlugin(&w.App.AllianceKeeper)
 	for _, p := range w.positions() {
 		bal := w.balanceOf(p)
+		w.emitQuery(6, []int64{p.u, p.v, p.d}, []string{intStr(bal)})
 		// binding reports the same value
 		if raw, err := plugin.GetDelegation(w.Ctx, denomName(p.d), w.AccAddr(p.u).String(), w.ValAddr(p.v).String()); err == nil {
 			var r bindingtypes.DelegationResponse
